@@ -165,7 +165,7 @@ func propC14(r *kernel.Run) {
 	w.StartAcceptor("acceptor")
 	w.Quiesce()
 
-	nconn := tp.Range(2, 7)
+	nconn := tp.Range(2, r.Deep(7, 20))
 	var hist []string
 	judge := func(kind, class string, expectAtMostOneErr bool) {
 		for _, a := range w.Take() {
